@@ -200,6 +200,46 @@ def run_parity(ctx: Ctx) -> RuleResult:
     if not ok:
         res.finding(cc, cc.node, 'create_callback no longer looks up the user method by the node name / falls back to the default with it',
                     construct='embedded:rule')
+    # calling convention of the user callback: the embedded path must hand it what _call_userfunc hands it --
+    # f(children) without a wrapper, wrapper(f, <node name>, children, <meta>) with one.  Every adapter that
+    # create_callback puts between the looked-up method and the shaping chain is inspected.
+    if g_:
+        fvar, namevar = g_[0][1]['f'], g_[0][1]['name']
+        mod = cc.module
+        n_adapt = 0
+        for asg, b_ in find_pat(nodes, '$f = $g($f, $$rest)', {'f': fvar}) + find_pat(nodes, '$f = $g($f)', {'f': fvar}) \
+                + find_pat(nodes, '$f = $g($f, $$r1, $$r2)', {'f': fvar}):
+            gname = b_['g']
+            gfun = mod.functions.get(gname)
+            if gfun is None:
+                continue
+            n_adapt += 1
+            inner = [x for x in gfun.node.body if isinstance(x, ast.FunctionDef)]
+            ps = gfun.positional_names()
+            call = asg.value
+            bound = {p: norm(a) for p, a in zip(ps, call.args)}
+            ok = len(inner) == 1 and len(inner[0].args.args) == 1 and bool(ps)
+            why = 'adapter is not a one-argument closure'
+            if ok:
+                cparam = inner[0].args.args[0].arg
+                inner_nodes = [x for x in ast.walk(inner[0])]
+                if len(ps) == 1:
+                    # plain callback: must be called with the children it was given
+                    calls = [x for x in inner_nodes if isinstance(x, ast.Call) and isinstance(x.func, ast.Name) and x.func.id == ps[0]]
+                    ok = bool(calls) and all(len(x.args) == 1 and not x.keywords and norm(x.args[0]) == cparam for x in calls)
+                    why = 'the callback is called with %s, not with the children list that Transformer._call_userfunc passes' % (
+                        ', '.join(norm(a) for a in calls[0].args) if calls else 'nothing')
+                else:
+                    # v_args wrapper: wrapper(func, name, children, meta) with name bound to the node name at the call site
+                    wp = [p for p in ps if bound.get(p) not in (fvar, namevar)]
+                    np_ = [p for p in ps if bound.get(p) == namevar]
+                    ok = len(wp) == 1 and len(np_) == 1 and has_pat(
+                        inner_nodes, 'return %s(%s, %s, %s, None)' % (wp[0], ps[0], np_[0], cparam))
+                    why = 'the v_args wrapper is not called as wrapper(func, <node name>, children, None) with the name create_callback looked the method up by'
+            res.ob('%s %s' % (gfun.loc(), gfun.qual), 'embedded calling convention equals Transformer._call_userfunc\'s (%s)' % gname, ok)
+            if not ok:
+                res.finding(gfun, gfun.node, 'embedded user callbacks adapted by %s: %s' % (gname, why), construct='embedded:callback-arg')
+        res.require_instances(n_adapt, 1, 'callback adapters in create_callback')
     # wrappers applied inner-to-outer in list order; user callback innermost
     ok = has_pat(cc.body_nodes(), 'for $w in $chain:\n    $f = $w($f)')
     res.ob('%s %s' % (cc.loc(), cc.qual), 'the shaping chain wraps the user callback in list order', ok)
